@@ -41,10 +41,10 @@ type option struct {
 func (p *prop) Rule() string {
 	return "prec: every server option x every subset of {flag, env, file} with distinct values of the option's kind (exhaustive block first, " +
 		"then random options/subsets with edge values: strings with quotes, backslashes, newlines, Unicode, leading space, '#', '='; negative and large " +
-		"integers; durations; floats; string lists incl. empty list, empty element, element containing a comma or a space); non-trivial = at least one source supplied. " +
+		"integers; durations in nanoseconds with h/m/s/ms/us/ns parts mixed, below and above 1 s, zero, negative, int64 extremes; floats; string lists incl. empty list, empty element, element containing a comma or a space); non-trivial = at least one source supplied. " +
 		"rp: complete configurations = defaults with 0-6 random overrides of any kind (incl. U+001F / astral runes, uint64 above int64, floats with more " +
 		"than float32 precision, lists with commas) rendered by `pilosa config`, compared textually with the model, read back by `server --config`; " +
-		"non-trivial = at least one override. gen: generate-config -> server --config"
+		"non-trivial = at least one override. gen: generate-config -> server --config. ds/pd: time.Duration.String and time.ParseDuration (incl. malformed text) against the model"
 }
 
 // ---------- wire encoding ----------
@@ -91,9 +91,14 @@ func decVal(s string) (wval, bool) {
 		return wval{}, false
 	}
 	switch s[0] {
-	case 's', 'd':
+	case 's':
 		v, ok := decStr(s[1:])
-		return wval{kind: s[0], s: v}, ok
+		return wval{kind: 's', s: v}, ok
+	case 'd':
+		if _, err := strconv.ParseInt(s[1:], 10, 64); err != nil {
+			return wval{}, false
+		}
+		return wval{kind: 'd', i: s[1:]}, true
 	case 'i':
 		if _, err := strconv.ParseInt(s[1:], 10, 64); err != nil {
 			if _, err2 := strconv.ParseUint(s[1:], 10, 64); err2 != nil {
@@ -130,8 +135,10 @@ func decVal(s string) (wval, bool) {
 
 func encVal(w wval) string {
 	switch w.kind {
-	case 's', 'd':
-		return string(w.kind) + encStr(w.s)
+	case 's':
+		return "s" + encStr(w.s)
+	case 'd':
+		return "d" + w.i
 	case 'i':
 		return "i" + w.i
 	case 'b':
@@ -155,10 +162,18 @@ func encVal(w wval) string {
 }
 
 // argText is the command-line / environment text of a value.
+// durText renders nanoseconds with the STANDARD LIBRARY's Duration.String (not pilosa's toml.Duration).
+func durText(w wval) string {
+	n, _ := strconv.ParseInt(w.i, 10, 64)
+	return time.Duration(n).String()
+}
+
 func argText(w wval, env bool) string {
 	switch w.kind {
-	case 's', 'd':
+	case 's':
 		return w.s
+	case 'd':
+		return durText(w)
 	case 'i':
 		return w.i
 	case 'b':
@@ -201,8 +216,10 @@ func tomlQuote(s string) string {
 
 func tomlText(w wval) string {
 	switch w.kind {
-	case 's', 'd':
+	case 's':
 		return tomlQuote(w.s)
+	case 'd':
+		return tomlQuote(durText(w))
 	case 'i':
 		return w.i
 	case 'b':
@@ -318,7 +335,7 @@ func tomlFloat(f float64) string {
 // wireOf renders a Config field as a wire value.
 func wireOf(v reflect.Value) wval {
 	if v.Type() == reflect.TypeOf(toml.Duration(0)) {
-		return wval{kind: 'd', s: time.Duration(v.Int()).String()}
+		return wval{kind: 'd', i: strconv.FormatInt(v.Int(), 10)}
 	}
 	switch v.Kind() {
 	case reflect.String:
@@ -344,8 +361,10 @@ func wireOf(v reflect.Value) wval {
 // showVal prints a value the way the model's showVal does: canonical scalar text or list.
 func showVal(w wval) string {
 	switch w.kind {
-	case 's', 'd':
+	case 's':
 		return "s" + encStr(w.s)
+	case 'd':
+		return "s" + encStr(durText(w))
 	case 'i':
 		return "s" + encStr(w.i)
 	case 'b':
@@ -385,7 +404,29 @@ func dryRun(args []string) (*server.Config, bool) {
 // ---------- generation ----------
 
 var strPool = []string{"a", "/tmp/x y", "é☃", "q\"uo\\te", "line\nbreak", "tab\there", "#hash", "k=v", " lead", "a,b", "$HOME", "%s", "[x]", "'sq'", "h:1"}
-var durPool = []string{"1m10s", "9m0s", "500ms", "0s", "1h0m0s", "1.5s", "2h3m4.5s"}
+// genDur draws durations in nanoseconds with every unit component mixed (h, m, s, ms, µs, ns), below and
+// above one second, zero, negative, and the int64 extremes.
+func genDur(r *vh.Rng, salt int) int64 {
+	const ns, us, ms, sec, min, hour = int64(1), int64(1000), int64(1000000), int64(1000000000), int64(60000000000), int64(3600000000000)
+	fixed := []int64{0, 1, 999, 1000, 1500, 999999, ms, 500 * ms, sec - 1, sec, sec + 1, 2*sec + 500*us, 10*min + 213, min, hour, hour + min + sec + 1,
+		90 * sec, 9 * min, 70 * sec, 1<<63 - 1, -1 << 63, -5, -1500 * ms, -(10*min + 7)}
+	var d int64
+	switch x := (r.Intn(10) + salt) % 10; {
+	case x < 4:
+		d = fixed[(r.Intn(len(fixed))+salt)%len(fixed)]
+	default:
+		comps := []int64{hour, min, sec, ms, us, ns}
+		for _, c := range comps {
+			if r.Chance(1, 2) {
+				d += int64(r.Pick(1, 2, 7, 59, 213, 999)) * c
+			}
+		}
+		if r.Chance(1, 8) {
+			d = -d
+		}
+	}
+	return d
+}
 var floatPool = []float64{0.5, 0.25, 2, 0.001, 10, 1e-7, 0.75}
 var listPool = [][]string{nil, {"a"}, {"h1:1", "h2:2"}, {"x", "", "y"}, {"p", "q", "r"}, {"http://o.example"}}
 
@@ -398,7 +439,11 @@ func genVal(r *vh.Rng, kind string, for_ string, salt int) wval {
 		}
 		return wval{kind: 's', s: s}
 	case "dur":
-		return wval{kind: 'd', s: durPool[(r.Intn(len(durPool))+salt)%len(durPool)]}
+		d := genDur(r, salt)
+		if d%1000000 != 0 && (d >= 1000000000 || d <= -1000000000) {
+			vh.Count("dur:submilli-above-1s")
+		}
+		return wval{kind: 'd', i: strconv.FormatInt(d, 10)}
 	case "int":
 		return wval{kind: 'i', i: []string{"-3", "0", "7", "3000", "2147483648", "41", "12"}[(r.Intn(7)+salt)%7]}
 	case "uint":
@@ -495,6 +540,26 @@ func (p *prop) Gen(r *vh.Rng, tier string, n int) []vh.Case {
 	cases = append(cases, vh.Case{Lines: []string{cfgLine("gen", opts, dfl)}, Nontrivial: true})
 	for k := 0; k < n; k++ {
 		cr := r.Fork()
+		if cr.Chance(1, 10) {
+			// stdlib tie of the duration model
+			if cr.Bool() {
+				cases = append(cases, vh.Case{Lines: []string{"ds " + strconv.FormatInt(genDur(cr, 0), 10)}, Nontrivial: true})
+			} else {
+				t := time.Duration(genDur(cr, 0)).String()
+				switch cr.Intn(6) {
+				case 0:
+					t = cr.PickS("1h", "1.5h", "0", "", "s", ".5s", "1.s", "1u", "1us2ms", "+3m", "1x", "9223372036854775808ns", "-9223372036854775808ns",
+						"1.0000000001s", "1μs", "1µs", "--1s", "1 s", "3m2", ".s", "1e3s", "00001.500s", "9223372036854775807ns1ns")
+				case 1:
+					if len(t) > 1 {
+						i := cr.Intn(len(t))
+						t = strings.ToValidUTF8(t[:i]+cr.PickS(".", "0", "s", "m", "-", "9")+t[i:], "?")
+					}
+				}
+				cases = append(cases, vh.Case{Lines: []string{"pd " + encStr(t)}, Nontrivial: true})
+			}
+			continue
+		}
 		if cr.Chance(6, 10) {
 			o := opts[cr.Intn(len(opts))]
 			l, nt := p.precLine(cr, o, cr.Intn(8), dfl[o.name])
@@ -541,6 +606,22 @@ func (p *prop) execLine(l string) string {
 	switch {
 	case len(ws) == 6 && ws[0] == "prec":
 		return p.execPrec(ws)
+	case len(ws) == 2 && ws[0] == "ds":
+		n, err := strconv.ParseInt(ws[1], 10, 64)
+		if err != nil {
+			return "bad-op"
+		}
+		return encStr(time.Duration(n).String())
+	case len(ws) == 2 && ws[0] == "pd":
+		t, ok := decStr(ws[1])
+		if !ok {
+			return "bad-op"
+		}
+		d, err := time.ParseDuration(t)
+		if err != nil {
+			return "err"
+		}
+		return "ok " + strconv.FormatInt(int64(d), 10)
 	case len(ws) == 2 && (ws[0] == "rp" || ws[0] == "gen"):
 		return p.execRP(ws[0], ws[1])
 	}
